@@ -2,11 +2,14 @@ package main
 
 import (
 	"bytes"
+	"go/types"
+
 	"encoding/json"
 	"fmt"
 	"go/ast"
 	"go/printer"
 	"go/token"
+	"golang.org/x/tools/go/packages"
 	"os"
 	"os/exec"
 	"sort"
@@ -17,9 +20,10 @@ import (
 // Behaviour-preserving sweep. For every source file that holds a function the rule tables anchor, one mechanical
 // rewrite is applied to the WHOLE file and all twenty properties are evaluated on the result; any hit is a false alarm of
 // the checker. Rewrites:
-//   swapcmp   a == b -> b == a, a != b -> b != a, a < b -> b > a, a <= b -> b >= a (and vice versa), for comparisons whose
-//             operands contain no call other than len/cap (so evaluation order cannot matter)
-//   errsplit  if err := f(); err != nil {…}  ->  err := f(); if err != nil {…}   inside a fresh block (scope preserved)
+//
+//	swapcmp   a == b -> b == a, a != b -> b != a, a < b -> b > a, a <= b -> b >= a (and vice versa), for comparisons whose
+//	          operands contain no call other than len/cap (so evaluation order cannot matter)
+//	errsplit  if err := f(); err != nil {…}  ->  err := f(); if err != nil {…}   inside a fresh block (scope preserved)
 func rewriteFile(w *World, file *ast.File, kind string) ([]byte, int) {
 	n := 0
 	pure := func(e ast.Expr) bool {
@@ -77,6 +81,39 @@ func rewriteFile(w *World, file *ast.File, kind string) ([]byte, int) {
 			}
 			return true
 		})
+	}
+	if kind == "renamelocals" {
+		// every local variable and parameter gets a new name (definition and all uses)
+		var pkg *packages.Package
+		for _, p := range w.Pkgs {
+			for _, f := range p.Syntax {
+				if f == file {
+					pkg = p
+				}
+			}
+		}
+		if pkg != nil {
+			rename := func(id *ast.Ident, obj types.Object) {
+				v, ok := obj.(*types.Var)
+				if !ok || v.IsField() || id.Name == "_" || v.Parent() == nil || v.Parent() == pkg.Types.Scope() || v.Parent() == types.Universe {
+					return
+				}
+				if !strings.HasSuffix(id.Name, "Zq") {
+					id.Name += "Zq"
+					n++
+				}
+			}
+			ast.Inspect(file, func(m ast.Node) bool {
+				if id, ok := m.(*ast.Ident); ok {
+					if obj := pkg.TypesInfo.Defs[id]; obj != nil {
+						rename(id, obj)
+					} else if obj := pkg.TypesInfo.Uses[id]; obj != nil {
+						rename(id, obj)
+					}
+				}
+				return true
+			})
+		}
 	}
 	var buf bytes.Buffer
 	if err := printer.Fprint(&buf, w.Fset, file); err != nil {
